@@ -341,6 +341,7 @@ func genPolicy(r *prng.R, ln int, disp bool) []string {
 	early := 0
 	kind := "fixed"
 	nx := 0
+	noHdrPct := 15 // provider responses without any header at all
 	if disp {
 		// through the real dispatcher: some attempts are answered early by the gateway itself
 		early = prng.Pick(r, []int{429, 500, 503, 599, 404})
@@ -348,8 +349,15 @@ func genPolicy(r *prng.R, ln int, disp bool) []string {
 			rg = prng.Pick(r, []string{"429-429,500-599", "400-599", "500-599"})
 		}
 		kind = prng.Pick(r, []string{"fixed", "fixed", "strategy", "strategy", "concurrency", "replay", "replay", "cache"})
-		ops = []string{fmt.Sprintf("dcfg attempts=%d cooldown=%d mult=%d ranges=%s early=%d kind=%s t0=%d", att, cd, mu, rg, early,
-			kind, 1_700_000_000_000_000_000+int64(r.Intn(1_000_000_000)))}
+		order := "sr"
+		if (kind == "replay" || kind == "cache") && r.Chance(45) {
+			order = "rs" // retry remedy listed before the storing remedy
+		}
+		if kind == "replay" || kind == "cache" {
+			noHdrPct = 35
+		}
+		ops = []string{fmt.Sprintf("dcfg attempts=%d cooldown=%d mult=%d ranges=%s early=%d kind=%s order=%s t0=%d", att, cd, mu, rg, early,
+			kind, order, 1_700_000_000_000_000_000+int64(r.Intn(1_000_000_000)))}
 	}
 	nseq := r.Range(1, 4)
 	pool := append([]string{}, seqNames[:nseq]...)
@@ -407,7 +415,7 @@ func genPolicy(r *prng.R, ln int, disp bool) []string {
 			if r.Chance(80) {
 				ops = append(ops, fmt.Sprintf("dreq id=x%d seq=x%d ep=n early=1", nx, nx))
 			} else {
-				ops = append(ops, fmt.Sprintf("dresp id=x%d seq=x%d ep=n status=%d", nx, nx, st))
+				ops = append(ops, fmt.Sprintf("dresp id=x%d seq=x%d ep=n status=%d hdr=%d", nx, nx, st, b2i(!r.Chance(noHdrPct))))
 			}
 			continue
 		}
@@ -419,7 +427,10 @@ func genPolicy(r *prng.R, ln int, disp bool) []string {
 				started[proto.Dec(s)]--
 				ops = append(ops, fmt.Sprintf("dreq id=%s seq=%s early=0", id, s))
 			default:
-				ops = append(ops, fmt.Sprintf("dresp id=%s seq=%s status=%d", id, s, st))
+				if (kind == "replay" || kind == "cache") && r.Chance(50) {
+					st = early // a response the storing remedy is interested in
+				}
+				ops = append(ops, fmt.Sprintf("dresp id=%s seq=%s status=%d hdr=%d", id, s, st, b2i(!r.Chance(noHdrPct))))
 			}
 			continue
 		}
